@@ -93,6 +93,33 @@ def sites():
                         out.append({"file": rel, "line": i + 1, "col": k, "op": op.strip(), "new": r.strip(), "checks": checks, "text": st[:140]})
     return out
 
+DELETE = re.compile(r'^\s*(self|state|scratch|workspace)\.[A-Za-z_\.\[\]0-9]+(\s*[-+*|&]?=[^=]|\.(clear|reset|push|extend|truncate|resize|insert|remove|drain|take|replace|reserve|write|advance|drop_first_n)\().*;\s*$')
+
+def sites_delete():
+    """single-line statements that update or reset state: each one deleted in turn (the 'forgotten reset' class)"""
+    out = []
+    for rel, checks in FILES:
+        p = os.path.join("/repo", rel)
+        if not os.path.exists(p):
+            continue
+        lines = open(p).read().split("\n")
+        in_hook = 0
+        for i, line in enumerate(lines):
+            st = line.strip()
+            if st.startswith("#[cfg(test)]"):
+                break
+            if st.startswith("#[cfg(zstd_rs_verif)]"):
+                in_hook = 1
+                continue
+            if in_hook:
+                in_hook += line.count("{") - line.count("}")
+                if in_hook <= 1 and "}" in line:
+                    in_hook = 0
+                continue
+            if DELETE.match(line) and "assert" not in line and "vprintln" not in line:
+                out.append({"file": rel, "line": i + 1, "col": 0, "op": "delete", "new": "", "checks": checks, "text": st[:140]})
+    return out
+
 def summary():
     rows = []
     for f in sorted(glob.glob(os.path.join(VERIF, "mutants", "sweep", "*.jsonl"))):
@@ -111,7 +138,7 @@ def main():
     if "--summary" in a:
         return summary()
     if "--count" in a:
-        s = sites(); print(len(s)); return 0
+        print(len(sites()), "operator sites,", len(sites_delete()), "deletion sites"); return 0
     root = a[a.index("--root") + 1]
     shard, nsh = map(int, a[a.index("--shard") + 1].split("/"))
     threads = a[a.index("--threads") + 1] if "--threads" in a else "5"
@@ -126,11 +153,24 @@ def main():
         for l in open(outp):
             if l.strip():
                 r = json.loads(l); done.add((r["file"], r["line"], r["col"], r["new"]))
-    all_sites = sites()
+    mode = a[a.index("--mode") + 1] if "--mode" in a else "operators"
+    all_sites = sites_delete() if mode == "delete" else sites()
     mine = [s for k, s in enumerate(all_sites) if k % nsh == shard]
+    if "--part" in a:
+        j, m = map(int, a[a.index("--part") + 1].split("/"))
+        per = (len(mine) + m - 1) // m
+        mine = mine[j * per:(j + 1) * per]
+        outp = os.path.join(VERIF, "mutants", "sweep", f"{mode}-shard{shard}of{nsh}part{j}of{m}.jsonl")
+    def done_now():
+        d = set()
+        for f in glob.glob(os.path.join(VERIF, "mutants", "sweep", "*.jsonl")):
+            for l in open(f):
+                if l.strip():
+                    r = json.loads(l); d.add((r["file"], r["line"], r["col"], r["new"]))
+        return d
     n = 0
     for s in mine:
-        if (s["file"], s["line"], s["col"], s["new"]) in done:
+        if (s["file"], s["line"], s["col"], s["new"]) in done_now():
             continue
         if n >= limit:
             break
@@ -139,10 +179,13 @@ def main():
         orig = open(p).read()
         lines = orig.split("\n")
         line = lines[s["line"] - 1]
-        k = s["col"]
-        op = " " + s["op"] + " "
-        assert line[k:k + len(op)] == op, (s, line)
-        lines[s["line"] - 1] = line[:k] + " " + s["new"] + " " + line[k + len(op):]
+        if s["op"] == "delete":
+            lines[s["line"] - 1] = ""
+        else:
+            k = s["col"]
+            op = " " + s["op"] + " "
+            assert line[k:k + len(op)] == op, (s, line)
+            lines[s["line"] - 1] = line[:k] + " " + s["new"] + " " + line[k + len(op):]
         open(p, "w").write("\n".join(lines))
         t0 = time.time()
         verdict, by, detail = None, None, ""
